@@ -403,29 +403,76 @@ theorem foldl_set_get (l : List Field) (val : Field → Val) (st : Store) (n : S
         have : ¬ n = g.name := fun h => hg h.symm
         simp [this]
 
+def setOpt (st : Store) (n : String) : Option Val → Store
+  | none => st
+  | some x => st.set n x
+
+theorem foldl_setOpt_get (l : List Field) (val : Field → Option Val) (st : Store) (n : String)
+    (hn : (l.map (·.name)).Nodup) :
+    (l.foldl (fun (st : Store) g => setOpt st g.name (val g)) st).get n =
+      match l.find? (fun f => f.name == n) with
+      | some f => (match val f with
+        | some x => some x
+        | none => st.get n)
+      | none => st.get n := by
+  induction l generalizing st with
+  | nil => rfl
+  | cons g rest ih =>
+    simp only [List.map_cons, List.nodup_cons] at hn
+    simp only [List.foldl_cons, List.find?_cons]
+    rw [ih _ hn.2]
+    by_cases hg : g.name = n
+    · have : (g.name == n) = true := by simp [hg]
+      simp only [this]
+      have hnone : rest.find? (fun f => f.name == n) = none := by
+        rw [List.find?_eq_none]
+        intro x hx hxn
+        apply hn.1
+        rw [List.mem_map]
+        exact ⟨x, hx, by rw [hg]; simpa using hxn⟩
+      rw [hnone]
+      cases val g with
+      | none => rfl
+      | some x => simp [setOpt, get_set, hg]
+    · have : (g.name == n) = false := by simpa using hg
+      simp only [this]
+      have hne : ¬ n = g.name := fun h => hg h.symm
+      have hget : (setOpt st g.name (val g)).get n = st.get n := by
+        cases val g with
+        | none => rfl
+        | some x => simp [setOpt, get_set, hne]
+      cases rest.find? (fun f => f.name == n) with
+      | some f => simp only [hget]
+      | none => exact hget
+
 theorem construct_plain (rt : CState) (rv : Bool) (arg : Field → Val) (hk : rt.inheritsHooks = false) :
     construct rt rv arg =
-      some (rt.attrs.foldl (fun (st : Store) g => st.set g.name (Init.convApply g.toInit (arg g))) []) := by
+      some (rt.attrs.foldl (fun (st : Store) g =>
+        setOpt st g.name ((ctorInput arg g).map (Init.convApply g.toInit))) []) := by
   unfold construct
   simp only [hk, Bool.false_eq_true, if_false]
   generalize ([] : Store) = st0
   induction rt.attrs generalizing st0 with
   | nil => rfl
-  | cons g rest ih => simp only [List.foldl_cons]; exact ih _
+  | cons g rest ih =>
+    simp only [List.foldl_cons]
+    cases hci : ctorInput arg g with
+    | none => simpa [setOpt] using ih st0
+    | some raw => simpa [setOpt] using ih (Store.set st0 g.name (Init.convApply g.toInit raw))
 
 theorem ctorVal_plain (cs : List Cls) (rt : CState) (rv : Bool) (a : Assign) (f : Field) (hinv : Inv cs rt)
-    (hk : rt.inheritsHooks = false) (hf : fieldOf cs a.name = some f) :
+    (hk : rt.inheritsHooks = false) (hf : fieldOf cs a.name = some f) (hinit : f.init = true) :
     ctorVal rt rv a = some (Init.convApply f.toInit a.value) := by
   have hfind : rt.attrs.find? (fun g => g.name == a.name) = some f := by
     unfold fieldOf at hf; rw [hinv.attrs]; exact hf
   have hfn : f.name = a.name := by simpa using List.find?_some hfind
-  have hany : rt.attrs.any (fun g => g.name == a.name) = true := by
+  have hany : rt.attrs.any (fun g => g.name == a.name && g.init) = true := by
     rw [List.any_eq_true]
-    exact ⟨f, List.mem_of_find?_eq_some hfind, by simp [hfn]⟩
+    exact ⟨f, List.mem_of_find?_eq_some hfind, by simp [hfn, hinit]⟩
   unfold ctorVal
   rw [if_pos hany, construct_plain rt rv _ hk]
   simp only
-  rw [foldl_set_get _ _ _ _ hinv.nodup, hfind]
-  simp [hfn]
+  rw [foldl_setOpt_get _ _ _ _ hinv.nodup, hfind]
+  simp [ctorInput, hinit, hfn]
 
 end Attrs.C06
